@@ -115,7 +115,7 @@ func TestTransportWideNumbersGapFree(t *testing.T) {
 			t.Fatalf("NewInterceptor: %v", err)
 		}
 		nStreams := rapid.IntRange(1, 4).Draw(t, "streams")
-		nWriters := rapid.IntRange(1, 8).Draw(t, "writers")
+		nWriters := rapid.OneOf(rapid.Just(1), rapid.IntRange(1, 8), rapid.IntRange(2, 8)).Draw(t, "writers")
 		wantNumbered := rapid.SampledFrom([]int{66000, 70000, 131200}).Draw(t, "numbered")
 		type stream struct {
 			negotiated bool
@@ -222,6 +222,9 @@ func TestTransportWideNumbersGapFree(t *testing.T) {
 				}
 				if prevSet && (num == prev || num-prev >= 1<<15) {
 					t.Fatalf("writer %d: packet %d got number %d after number %d: not increasing", w, k, num, prev)
+				}
+				if prevSet && nWriters == 1 && num != prev+1 {
+					t.Fatalf("single writer: packet %d got number %d after number %d: not consecutive", k, num, prev)
 				}
 				prev, prevSet = num, true
 			}
